@@ -106,6 +106,7 @@ type Engine func(c *Choices, p Params) *Result
 
 // ReplayFile is the on-disk replay format.
 type ReplayFile struct {
+	Check     string            `json:"check"` // the check (VERIF_PROP) that was running; decides engine and workload
 	Property  string            `json:"property"`
 	Engine    string            `json:"engine"`
 	Seed      uint64            `json:"seed"`
@@ -287,14 +288,17 @@ func Main(engineName string, engines map[string]Engine) int {
 			fmt.Fprintln(os.Stderr, err)
 			return 2
 		}
-		p.Property = rf.Property
+		p.Property = rf.Check
+		if p.Property == "" {
+			p.Property = rf.Property
+		}
 		if rf.Tier != "" {
 			p.Tier = rf.Tier
 		}
 		if rf.Knobs != nil {
 			p.Knobs = rf.Knobs
 		}
-		if e2, ok := engines[rf.Property]; ok {
+		if e2, ok := engines[p.Property]; ok {
 			eng = e2
 		}
 		c := NewReplay(rf.Seed, rf.Tape)
@@ -367,7 +371,7 @@ func Main(engineName string, engines map[string]Engine) int {
 		if res.Violation != nil {
 			v := res.Violation
 			os.MkdirAll(replayDir, 0o755)
-			full := &ReplayFile{Property: v.Property, Engine: engineName, Seed: seed, Tier: p.Tier, Knobs: p.Knobs,
+			full := &ReplayFile{Check: p.Property, Property: v.Property, Engine: engineName, Seed: seed, Tier: p.Tier, Knobs: p.Knobs,
 				Tape: c.Tape(), Oracle: v.Oracle, Signature: v.Signature, Msg: v.Msg, OrigLen: len(c.rec), Log: c.Log}
 			fullPath := filepath.Join(replayDir, fmt.Sprintf("%s-%d.full.json", v.Property, seed))
 			writeJSON(fullPath, full)
@@ -376,7 +380,7 @@ func Main(engineName string, engines map[string]Engine) int {
 			best, bestC, bestRes := shrink(eng, p, seed, c.Tape(), v.class(), shrinkBudget, arm, disarm)
 			if bestRes != nil {
 				sv := bestRes.Violation
-				min := &ReplayFile{Property: sv.Property, Engine: engineName, Seed: seed, Tier: p.Tier, Knobs: p.Knobs,
+				min := &ReplayFile{Check: p.Property, Property: sv.Property, Engine: engineName, Seed: seed, Tier: p.Tier, Knobs: p.Knobs,
 					Tape: best, Oracle: sv.Oracle, Signature: sv.Signature, Msg: sv.Msg, Shrunk: true, OrigLen: len(c.rec), Log: bestC.Log}
 				minPath := filepath.Join(replayDir, fmt.Sprintf("%s-%d.json", v.Property, seed))
 				writeJSON(minPath, min)
